@@ -60,6 +60,43 @@ def concrete_outcome(real_fn, pyargs):
         return ("raise", e, a)
 
 
+class ConcreteCtx(Ctx):
+    """Ctx over an observed concrete outcome: class and args of the exception are ground terms."""
+    def __init__(self, *a, **kw):
+        self._cid = kw.pop("cid", None)
+        self._args = kw.pop("excargs", None)
+        Ctx.__init__(self, *a, **kw)
+
+    def exc_cls(self):
+        return z3.IntVal(self._cid) if self._cid is not None else Ctx.exc_cls(self)
+
+    def exc_args(self):
+        return self._args if self._args is not None else Ctx.exc_args(self)
+
+
+def decide_ground(goal, facts=()):
+    g = z3.simplify(goal)
+    if z3.is_true(g):
+        return True
+    if z3.is_false(g):
+        return False
+    s = z3.Solver()
+    s.set("timeout", 5000)
+    s.add(*solve.base_facts())
+    s.add(*facts)
+    s.add(*solve.wf_ties(list(facts) + [g]))
+    s.push()
+    s.add(z3.Not(g))
+    r1 = s.check()
+    s.pop()
+    if r1 == z3.unsat:
+        return True
+    s.add(g)
+    if s.check() == z3.unsat:
+        return False
+    return None
+
+
 def eval_clause(env, ex, con, label, pyargs, outcome):
     """decide the clause `label` of `con` on concrete arguments and the observed outcome.
     returns True (clause holds), False (violated) or None (could not decide)."""
@@ -68,7 +105,6 @@ def eval_clause(env, ex, con, label, pyargs, outcome):
     for name, v in pyargs.items():
         args[name] = V.py_to_val(v, objtable)
     kind, value, after = outcome
-    facts = []
     heap = {}
 
     def arr(f):
@@ -76,6 +112,7 @@ def eval_clause(env, ex, con, label, pyargs, outcome):
             heap[f] = z3.Array("CH!" + f, z3.IntSort(), Val)
         return heap[f]
 
+    cid = excargs = None
     if kind == "return":
         ret = V.py_to_val(value, objtable) if _plain(value) else V.fresh("opaque_ret")
         raised = z3.BoolVal(False)
@@ -83,39 +120,19 @@ def eval_clause(env, ex, con, label, pyargs, outcome):
     else:
         ret = V.VNone
         raised = z3.BoolVal(True)
-        ref = z3.IntVal(900000)
-        exc = V.VObj(ref)
-        cls = type(value)
-        known = cls in C._ids
-        cid = C.cid(cls)
-        facts.append(C.cls_of(ref) == z3.IntVal(cid))
+        exc = V.VObj(z3.IntVal(900000))
+        cid = C.cid(type(value))
         try:
-            facts.append(z3.Select(arr("args"), ref) == V.py_to_val(tuple(value.args), objtable))
+            excargs = V.py_to_val(tuple(value.args), objtable) if _plain(tuple(value.args)) else None
         except Exception:
-            pass
+            excargs = None
     after_vals = {n: (V.py_to_val(v, objtable) if _plain(v) else args[n]) for n, v in after.items()}
-    ctx = Ctx(ex, args, arr, arr, lambda g: z3.Const("CG0!" + g, env.trusted.ghost_sort(g)),
-              lambda g: z3.Const("CG1!" + g, env.trusted.ghost_sort(g)), ret, raised, exc,
-              lambda n: after_vals.get(n, args[n]), None)
+    ctx = ConcreteCtx(ex, args, arr, arr, lambda g: z3.Const("CG0!" + g, env.trusted.ghost_sort(g)),
+                      lambda g: z3.Const("CG1!" + g, env.trusted.ghost_sort(g)), ret, raised, exc,
+                      lambda n: after_vals.get(n, args[n]), None, cid=cid, excargs=excargs)
     for lab, fn_ens, props in con.ensures:
         if lab == label:
-            goal = fn_ens(ctx)
-            s = z3.Solver()
-            s.set("timeout", 5000)
-            s.add(*solve.base_facts())
-            s.add(*facts)
-            s.add(*solve.wf_ties(facts + [goal]))
-            s.push()
-            s.add(z3.Not(goal))
-            r1 = s.check()
-            s.pop()
-            if r1 == z3.unsat:
-                return True
-            s.add(goal)
-            r2 = s.check()
-            if r2 == z3.unsat:
-                return False
-            return None
+            return decide_ground(fn_ens(ctx))
     return None
 
 
@@ -148,7 +165,7 @@ def _apps(formulas, names):
     return list(out.values())
 
 
-def refine_model(ob, model):
+def refine_model(ob, model, prefer=None):
     """Ground, bounded re-solve used only to obtain a replayable counter-model (DESIGN 2.10): list
     membership and container equality are expanded exactly for containers of length <= 3 and dict lengths
     are tied to the keys that occur.  Never used in the proof direction."""
@@ -170,7 +187,8 @@ def refine_model(ob, model):
             small.append(Val.dlen(dt) == z3.Sum([z3.If(z3.Select(Val.dhas(dt), k), 1, 0) for k in consts]) if consts else Val.dlen(dt) == 0)
     for t in _apps(forms, ("llen", "tlen", "slen")):
         small.append(t <= 2)
-    for attempt in (extra + small, extra):
+    simple = list(prefer or [])
+    for attempt in (extra + small + simple, extra + small, extra + simple, extra):
         if not attempt:
             continue
         s = z3.Solver()
@@ -189,7 +207,18 @@ def generic_cex(env, ex, args, ob, model):
     """counterexample record for an obligation refuted by the solver; replays when the function takes
     plain values only."""
     con = env.contract
-    model = refine_model(ob, model)
+    prefer = []
+    for name, v in args.items():
+        if z3.is_expr(v) and not (isinstance(con.kinds.get(name), str) and "obj:" in con.kinds.get(name)) and name != "self":
+            prefer.append(z3.Not(z3.Or(V.is_obj(v), V.is_fun(v), V.is_type(v), V.is_set(v))))
+    h0 = getattr(ex, "heap0_ref", {})
+    for f in ("serialize_handlers", "classes"):
+        if f in h0:
+            for name, v in args.items():
+                if z3.is_expr(v) and (name == "config" or f in ("serialize_handlers", "classes")) and \
+                        isinstance(con.kinds.get(name), str) and con.kinds.get(name).endswith("Config"):
+                    prefer.append(Val.dlen(z3.Select(h0[f], Val.ref(v))) == 0)
+    model = refine_model(ob, model, prefer)
     inputs = extract_inputs(env, ex, args, ob, model)
     rec = {"inputs": jsonable(inputs), "replayed": False, "confirmed": None}
     if ob.kind != "post":
@@ -198,6 +227,10 @@ def generic_cex(env, ex, args, ob, model):
     try:
         if hook is not None:
             rec.update(hook(env, ex, con, ob, inputs))
+            return rec
+        if ob.kind == "post" and any(isinstance(k, str) and ("obj:" in k) for k in con.kinds.values()) or \
+                (ob.kind == "post" and "self" in args):
+            rec.update(object_replay(env, ex, con, ob, model, args, getattr(ex, "heap0_ref", {})))
             return rec
         if all(_plain(v) for v in inputs.values()):
             outcome = concrete_outcome(env.real_fn, inputs)
@@ -210,3 +243,215 @@ def generic_cex(env, ex, args, ob, model):
         rec["replay_error"] = "%s: %s" % (type(e).__name__, e)
         rec["trace"] = traceback.format_exc()[-800:]
     return rec
+
+
+# -------------------------------------------------------------------------------------------------------------
+# replay for functions that take instances: objects are materialised from the model's initial heap
+def _instance_fields(pycls):
+    """attribute names of an instance of pycls (from a default-constructed one when possible)"""
+    try:
+        probe = pycls()
+        return list(vars(probe).keys())
+    except Exception:
+        return []
+
+
+def materialize(env, ex, args, ob, model, st_heap0):
+    from .symexec import ALLOC0
+    pairs = key_pairs(list(ob.hyps) + [ob.goal])
+    objs = {}      # ref int -> python object
+
+    def build_obj(ref_int, pycls, depth=0):
+        if ref_int in objs:
+            return objs[ref_int]
+        o = pycls.__new__(pycls)
+        objs[ref_int] = o
+        names = set(_instance_fields(pycls))
+        for f in st_heap0:
+            if f.startswith("?") or f == "args":
+                continue
+            names.add(f)
+        for f in sorted(names):
+            arr = st_heap0.get(f)
+            if arr is None:
+                continue
+            if not any(f == n or f.endswith("__" + n.lstrip("_")) for n in _instance_fields(pycls)) and \
+                    f not in _instance_fields(pycls):
+                if f not in _declared_fields(env, pycls):
+                    continue
+            val = conv(z3.Select(arr, z3.IntVal(ref_int)), env.fields.lookup(pycls, f), depth + 1)
+            try:
+                object.__setattr__(o, f, val)
+            except Exception:
+                pass
+        return o
+
+    def conv(term, info, depth=0):
+        v = model.eval(term, model_completion=True)
+        if z3.is_true(model.eval(V.is_obj(v), model_completion=True)) and info and info.get("type") and depth < 4:
+            t = env.fields.resolve(info["type"])
+            return build_obj(model.eval(Val.ref(v), model_completion=True).as_long(), t, depth)
+        return V.val_to_py(model, term, pairs)
+
+    pyargs = {}
+    con = env.contract
+    import inspect
+    for name, v in args.items():
+        kind = con.kinds.get(name)
+        if isinstance(v, Meta):
+            continue
+        t = None
+        if name == "self":
+            t = env.fields.resolve(con.self_class) if con.self_class else env.cls
+        elif isinstance(kind, str) and kind.startswith("obj:"):
+            t = env.fields.resolve(kind[4:])
+        elif isinstance(kind, str) and kind.startswith("opt:obj:"):
+            if not z3.is_true(model.eval(V.is_none(v), model_completion=True)):
+                t = env.fields.resolve(kind[8:])
+        if t is not None:
+            ref = model.eval(Val.ref(v), model_completion=True).as_long()
+            pyargs[name] = build_obj(ref, t)
+        else:
+            pyargs[name] = V.val_to_py(model, v, pairs, json_only=(kind == "json"))
+    return pyargs, objs
+
+
+def _declared_fields(env, pycls):
+    out = set()
+    for (cname, attr) in env.fields.table:
+        for k in pycls.__mro__:
+            if cname == k.__module__ + "." + k.__qualname__:
+                out.add(attr)
+    return out
+
+
+def _snapshot(objs):
+    return {ref: dict((k, copy.deepcopy(v) if _plain(v) else v) for k, v in vars(o).items()) for ref, o in objs.items()}
+
+
+def ground_heap(snap, objtable, extra_objs=()):
+    heap = {}
+    for ref, attrs in snap.items():
+        for f, val in attrs.items():
+            arr = heap.get(f, z3.K(z3.IntSort(), V.VNone))
+            heap[f] = z3.Store(arr, z3.IntVal(ref), _to_val(val, objtable))
+    return heap
+
+
+def _to_val(x, objtable):
+    if _plain(x):
+        return V.py_to_val(x)
+    if id(x) in objtable:
+        return V.VObj(z3.IntVal(objtable[id(x)]))
+    if isinstance(x, (list, tuple)):
+        items = [_to_val(e, objtable) for e in x]
+        return V.mk_list(items) if isinstance(x, list) else V.mk_tuple(items)
+    if isinstance(x, dict):
+        return V.mk_dict([(V.py_key(k), _to_val(v, objtable)) for k, v in x.items()])
+    ref = 800000 + len(objtable)
+    objtable[id(x)] = ref
+    return V.VObj(z3.IntVal(ref))
+
+
+def object_replay(env, ex, con, ob, model, args, st_heap0):
+    """materialise instances from the model, run the real function, decide the clause on what was observed"""
+    from .symexec import ALLOC0
+    pyargs, objs = materialize(env, ex, args, ob, model, st_heap0)
+    objtable = {id(o): ref for ref, o in objs.items()}
+    # process-wide objects the function reads (the shared default Config): set from the model for the call
+    restore = []
+    for ref_term, real in getattr(env.trusted, "global_objects", []):
+        ref_int = model.eval(ref_term, model_completion=True).as_long()
+        pairs = key_pairs(list(ob.hyps) + [ob.goal])
+        saved = dict(vars(real))
+        restore.append((real, saved))
+        for f in list(saved):
+            if f in st_heap0:
+                try:
+                    setattr(real, f, V.val_to_py(model, z3.Select(st_heap0[f], z3.IntVal(ref_int)), pairs))
+                except Exception:
+                    pass
+        objs.setdefault(ref_int, real)
+        objtable[id(real)] = ref_int
+    old = _snapshot(objs)
+    call_args = dict(pyargs)
+    import uuid as _uuid
+    real_uuid4 = _uuid.uuid4
+    made = []
+
+    def counting_uuid4():
+        u = real_uuid4()
+        made.append(str(u))
+        return u
+    _uuid.uuid4 = counting_uuid4
+    try:
+        try:
+            value = env.real_fn(**call_args)
+            kind = "return"
+        except BaseException as e:   # noqa
+            value, kind = e, "raise"
+    finally:
+        _uuid.uuid4 = real_uuid4
+        post_globals = [(real, dict(vars(real))) for real, _ in restore]
+        for real, saved in restore:
+            vars(real).clear()
+            vars(real).update(saved)
+    # objects created by the call that are reachable from the outcome
+    fresh = {}
+    if kind == "return" and not _plain(value) and hasattr(value, "__dict__") and id(value) not in objtable:
+        objtable[id(value)] = 700000
+        fresh[700000] = value
+    allobjs = dict(objs)
+    allobjs.update(fresh)
+    new = _snapshot(allobjs)
+    old_heap = ground_heap(old, objtable)
+    new_heap = ground_heap(new, objtable)
+    facts = [ALLOC0 == z3.IntVal(650000)]
+    # ghost uuid counter: observed through the instrumented uuid4
+    try:
+        from contracts.base import uuid_str
+        facts.append(z3.Const("CG0!uuid_ctr", z3.IntSort()) == 0)
+        facts.append(z3.Const("CG1!uuid_ctr", z3.IntSort()) == len(made))
+        for i_, s_ in enumerate(made):
+            facts.append(uuid_str(z3.IntVal(i_)) == z3.StringVal(s_))
+    except Exception:
+        pass
+    for ref, o in allobjs.items():
+        facts.append(C.cls_of(z3.IntVal(ref)) == z3.IntVal(C.cid(type(o))))
+    from contracts.base import DEFAULT_REF      # the shared default configuration, when it is an argument
+    zargs = {}
+    for name, v in args.items():
+        if isinstance(v, Meta):
+            zargs[name] = v
+        elif name in pyargs:
+            zargs[name] = _to_val(pyargs[name], objtable) if not _plain(pyargs[name]) else V.py_to_val(pyargs[name])
+    cid = excargs = None
+    if kind == "return":
+        ret = _to_val(value, objtable)
+        raised, exc = z3.BoolVal(False), V.VNone
+    else:
+        ret, raised, exc = V.VNone, z3.BoolVal(True), V.VObj(z3.IntVal(900000))
+        cid = C.cid(type(value))
+        try:
+            excargs = _to_val(tuple(value.args), objtable)
+        except Exception:
+            excargs = None
+
+    def arr_of(heap):
+        def f(name):
+            return heap.get(name, z3.K(z3.IntSort(), V.VNone))
+        return f
+    after_vals = {n: zargs[n] for n in zargs}
+    g0 = lambda g: z3.Const("CG0!" + g, env.trusted.ghost_sort(g))
+    g1 = lambda g: z3.Const("CG1!" + g, env.trusted.ghost_sort(g))
+    ctx = ConcreteCtx(ex, zargs, arr_of(old_heap), arr_of(new_heap), g0, g1, ret, raised, exc,
+                      lambda n: after_vals[n], None, cid=cid, excargs=excargs)
+    verdict = None
+    for lab, fn_ens, props in con.ensures:
+        if lab == ob.clause:
+            verdict = decide_ground(fn_ens(ctx), facts)
+    desc = {n: (jsonable(v) if _plain(v) else {"$instance": type(v).__name__, "fields": jsonable({k: (x if _plain(x) else repr(x)) for k, x in vars(v).items()})})
+            for n, v in pyargs.items()}
+    return {"inputs": desc, "replayed": True, "observed": {"kind": kind, "value": repr(value)[:300]},
+            "confirmed": verdict is False,
+            "clause_on_observed": {True: "holds", False: "violated", None: "undecided (ghost state is not observable)"}[verdict]}
